@@ -1,7 +1,7 @@
 """Per-property metadata used by ./check for evidence files and MANIFEST.json."""
 
 HOOK_COMMITS = []
-FIX_COMMITS = ['0a1810c', 'a823fe8', '611b765', '43d434c', 'bd77cd5', '75ae538', '463f78f', '94ec477']
+FIX_COMMITS = ['0a1810c', 'a823fe8', '611b765', '43d434c', 'bd77cd5', '75ae538', '463f78f', '94ec477', '5158e08']
 
 REAL = ["nhooyr.io/websocket (all non-js code, both endpoints where libpair)", "bufio", "compress/flate", "context", "time (fake clock from testing/synctest)"]
 STUB = ["transport (simrt.simnet)", "handshake plumbing (fake RoundTripper / hijacker, no bytes on the wire)"]
@@ -134,6 +134,15 @@ META = {
         design_ref="DESIGN.md 6 C19",
         rule="run = one tape: (number of connections; per connection role, negotiation, limit, 1-5 documents with target type and fragmentation, invalid-document kind, 0-3 values to write; chunk policy; schedule). Non-trivial = every run; distinct = distinct event-log SHA-256.",
         real=REAL + ["wsjson", "internal/bpool"], stub=STUB + RAW, assumptions=COMMON_ASSUME,
+    ),
+    "C07": dict(
+        level="exploration",
+        level_text="Seeded simulation of 2-4 slots that each open 1-3 real connections one after another (both roles, all negotiated parameter sets), so that several connections are open at once and later ones draw from the pools (sync.Pool contents are deterministic: GC is off during a run and the pools are emptied between runs). Every payload byte is provenance-tagged (connection, direction, message, word index), inbound messages are mostly compressed and fragmented, and the per-message action is drawn: read to EOF; read again 1-3 times after EOF while other connections progress; abandon after j bytes and Close; exceed the read limit; peer Close frame or protocol violation between the fragments of a (compressed) message; context expiry or CloseNow in the middle of a message. Oracle: every byte any Read returns is the next byte of that connection's own message; a Read after end-of-message returns no bytes; close reasons are the connection's own; what the library writes (checked at the raw peers) carries its own tags and inflates. The same seeds run on the race-detector build. Sampling, not proof.",
+        level_note="Trusts the reference codec; pool hand-over between connections is made likely by construction (GC off, GOMAXPROCS=1) but is not counted without the verif hooks.",
+        technique="deterministic simulation: several connections interleaved by the seeded scheduler over shared pools, provenance-tag oracle; race-detector build as second detector",
+        design_ref="DESIGN.md 6 C07",
+        rule="run = one tape: (slots, generations per slot, per connection role/negotiation, per message size, compression, fragmentation, action, re-read count, abandon offset, read buffer; chunk policies; schedule). Non-trivial = every run; distinct = distinct event-log SHA-256.",
+        real=REAL, stub=STUB + RAW, assumptions=COMMON_ASSUME, race=dict(quick=600, thorough=25000),
     ),
 }
 
